@@ -18,6 +18,8 @@ import (
 	"testing/synctest"
 	"time"
 
+	"github.com/gopcua/opcua/uacp"
+
 	"verif/sim"
 )
 
@@ -101,6 +103,10 @@ func Execute(t *testing.T, sc *Scenario, seed uint64, plan, sched *sim.Tape, wan
 		if sc.MaxSteps > 0 {
 			s.MaxSteps = sc.MaxSteps
 		}
+		// package-level mutable defaults are snapshotted and restored around
+		// every run (C23 checks that gopcua itself does not modify them)
+		cack, sack := *uacp.DefaultClientACK, *uacp.DefaultServerACK
+		defer func() { *uacp.DefaultClientACK, *uacp.DefaultServerACK = cack, sack }()
 		r := sc.New()
 		r.Setup(s)
 		gcOff := debug.SetGCPercent(-1)
